@@ -16,7 +16,6 @@ import (
 
 	ad "github.com/pbenner/autodiff"
 	"github.com/pbenner/autodiff/algorithm/backSubstitution"
-	"github.com/pbenner/autodiff/algorithm/cholesky"
 	"github.com/pbenner/autodiff/algorithm/determinant"
 	"github.com/pbenner/autodiff/algorithm/gaussJordan"
 	"github.com/pbenner/autodiff/algorithm/matrixInverse"
@@ -39,6 +38,11 @@ type Case struct {
 	Pi     []int       `json:"pi,omitempty"`
 	PKind  int         `json:"pkind,omitempty"`
 	Tag    string      `json:"tag"`
+	// round 3
+	ET    string `json:"et,omitempty"`    // element type f32 f64 r32 r64 ("" = legacy: Dense ? f64 : r64)
+	Log   bool   `json:"log,omitempty"`   // DetPD: determinant.LogScale{true}
+	Reuse bool   `json:"reuse,omitempty"` // the call and its history share ONE InSitu struct
+	Pre   []Case `json:"pre,omitempty"`   // history: calls executed before this one in the same process
 }
 
 type Result struct {
@@ -144,16 +148,17 @@ func dirty(n int) [][]float64 {
 
 // ---------------------------------------------------------------- running the implementation
 
-func execCase(c Case) (res Result) {
+func execOne(c Case, ses *session) (res Result) {
 	defer func() {
 		if r := recover(); r != nil {
 			res = Result{Kind: classifyPanic(r)}
 		}
 	}()
-	n := c.N
+	n, et := c.N, c.et()
+	in := effective(c) // the inputs as the element type holds them
 	switch c.Kind {
 	case "GJ":
-		a, x, b := newMat(c.Dense, c.A, n), newMat(c.Dense, c.X, n), newVec(c.Dense, c.B)
+		a, x, b := newMatT(et, c.A, n), newMatT(et, c.X, n), newVecT(et, c.B)
 		args := []interface{}{}
 		if !c.MskNil {
 			args = append(args, gaussJordan.Submatrix{append([]bool{}, c.Msk...)})
@@ -166,7 +171,7 @@ func execCase(c Case) (res Result) {
 		}
 		return Result{Kind: "ok", A: rowsOf(a), X: rowsOf(x), B: vecOf(b)}
 	case "Inv":
-		m := newMat(c.Dense, c.A, n)
+		m := newMatT(et, c.A, n)
 		args := []interface{}{}
 		if !c.MskNil {
 			args = append(args, gaussJordan.Submatrix{append([]bool{}, c.Msk...)})
@@ -177,74 +182,54 @@ func execCase(c Case) (res Result) {
 		case 2:
 			args = append(args, matrixInverse.PositiveDefinite{true})
 		}
-		if c.InSitu {
-			// caller-supplied buffers holding stale content
-			is := &matrixInverse.InSitu{Id: newMat(c.Dense, dirty(n), n), B: newVec(c.Dense, dirty(n)[0])}
-			is.A = newMat(c.Dense, dirty(n), n) // PositiveDefinite + Submatrix overwrites it (8a0efbb)
-			if c.Mode == 2 && c.Dense {
-				is.Cholesky = cholesky.InSitu{L: newMat(true, dirty(n), n), S: ad.NullFloat64(), T: ad.NullFloat64()}
-			} else if c.Mode == 2 {
-				is.Cholesky = cholesky.InSitu{L: newMat(false, dirty(n), n), S: ad.NullReal64(), T: ad.NullReal64()}
-			}
-			args = append(args, is)
+		if c.InSitu || c.Reuse {
+			// caller-supplied buffers holding stale content (or the results of the history)
+			args = append(args, ses.invBufs(c))
 		}
 		r, err := matrixInverse.Run(m, args...)
 		if err != nil {
 			return Result{Kind: classifyErr(err)}
 		}
 		// the argument must not have been modified
-		if fmt.Sprint(rowsOf(m)) != fmt.Sprint(c.A) {
+		if fmt.Sprint(rowsOf(m)) != fmt.Sprint(in.A) {
 			return Result{Kind: "other:input-modified"}
 		}
 		return Result{Kind: "ok", X: rowsOf(r)}
 	case "BS":
-		a := newMat(c.Dense, c.A, n)
+		a := newMatT(et, c.A, n)
 		var b ad.Vector
 		if c.HasB {
-			b = newVec(c.Dense, c.B)
+			b = newVecT(et, c.B)
 		}
 		var x ad.Vector
 		var err error
-		if c.InSituA {
-			// caller-supplied coefficient buffer holding stale content (optionally also a stale X)
-			is := &backSubstitution.InSitu{A: newMat(c.Dense, dirty(n), n)}
-			if c.InSitu {
-				is.X = newVec(c.Dense, dirty(n)[0])
-			}
-			x, err = backSubstitution.Run(a, b, is)
-			if err == nil && fmt.Sprint(rowsOf(a)) != fmt.Sprint(c.A) {
-				return Result{Kind: "other:input-modified"}
-			}
-		} else if c.InSitu {
-			is := &backSubstitution.InSitu{X: newVec(c.Dense, dirty(n)[0])}
-			x, err = backSubstitution.Run(a, b, is)
+		if c.InSituA || c.InSitu || c.Reuse {
+			x, err = backSubstitution.Run(a, b, ses.bsBufs(c))
 		} else {
 			x, err = backSubstitution.Run(a, b)
 		}
 		if err != nil {
 			return Result{Kind: classifyErr(err)}
 		}
+		if fmt.Sprint(rowsOf(a)) != fmt.Sprint(in.A) {
+			return Result{Kind: "other:input-modified"}
+		}
 		return Result{Kind: "ok", B: vecOf(x)}
 	case "Det":
-		r, err := determinant.Run(newMat(c.Dense, c.A, n))
+		r, err := determinant.Run(newMatT(et, c.A, n))
 		if err != nil {
 			return Result{Kind: classifyErr(err)}
 		}
 		return Result{Kind: "ok", V: r.GetFloat64()}
 	case "DetPD":
-		var r ad.Scalar
-		var err error
-		if c.InSitu {
-			is := &determinant.InSitu{}
-			if c.Dense {
-				is.Cholesky = cholesky.InSitu{L: newMat(true, dirty(n), n), S: ad.NullFloat64(), T: ad.NullFloat64()}
-			} else {
-				is.Cholesky = cholesky.InSitu{L: newMat(false, dirty(n), n), S: ad.NullReal64(), T: ad.NullReal64()}
-			}
-			r, err = determinant.Run(newMat(c.Dense, c.A, n), determinant.PositiveDefinite{true}, is)
-		} else {
-			r, err = determinant.Run(newMat(c.Dense, c.A, n), determinant.PositiveDefinite{true})
+		args := []interface{}{determinant.PositiveDefinite{true}}
+		if c.Log {
+			args = append(args, determinant.LogScale{true})
 		}
+		if c.InSitu || c.Reuse {
+			args = append(args, ses.detBufs(c))
+		}
+		r, err := determinant.Run(newMatT(et, c.A, n), args...)
 		if err != nil {
 			return Result{Kind: classifyErr(err)}
 		}
@@ -252,13 +237,13 @@ func execCase(c Case) (res Result) {
 	case "Perm":
 		pi := append([]int{}, c.Pi...)
 		if c.PKind == 0 {
-			v := newVec(c.Dense, c.A[0])
+			v := newVecT(et, c.A[0])
 			if err := v.Permute(pi); err != nil {
 				return Result{Kind: classifyErr(err)}
 			}
 			return Result{Kind: "ok", X: [][]float64{vecOf(v)}}
 		}
-		m := newMat(c.Dense, c.A, n)
+		m := newMatT(et, c.A, n)
 		var err error
 		switch c.PKind {
 		case 1:
@@ -352,6 +337,9 @@ func resTol(n int, na, nx float64) float64 {
 func coqCases(c Case, r Result, w *CaseWriter) []string {
 	var out []string
 	n := c.N
+	if c.ET != "" {
+		return coqCasesTyped(c, r, w)
+	}
 	switch c.Kind {
 	case "GJ":
 		out = append(out, fmt.Sprintf("KGJ %s %s %d %s %s %s %s %s", B(c.Dense), B(c.UT), n, bl(c.Msk), fm(c.A), fm(c.X), FList(c.B),
@@ -409,6 +397,69 @@ func coqCases(c Case, r Result, w *CaseWriter) []string {
 			pi[i] = fmt.Sprint(v)
 		}
 		out = append(out, fmt.Sprintf("KPerm %d %d %s %s %s", c.PKind, n, List(pi), fm(c.A), outcome(r.Kind, fm(r.X))))
+	}
+	return out
+}
+
+// typed cases (round 3): the inputs are printed as GIVEN (binary64); the model rounds them to
+// binary32 for the 32 bit element types, as the float32 conversion of the harness did
+func coqCasesTyped(c Case, r Result, w *CaseWriter) []string {
+	var out []string
+	n, et := c.N, etCode(c.et())
+	in := effective(c)
+	tolOf := func(n int, na, nx float64) float64 {
+		if is32(c.et()) {
+			return math.Ldexp(float64(n)*math.Max(1, na*nx), -17)
+		}
+		return resTol(n, na, nx)
+	}
+	switch c.Kind {
+	case "GJ":
+		out = append(out, fmt.Sprintf("KTGJ %d %s %d %s %s %s %s %s", et, B(c.UT), n, bl(c.Msk), fm(c.A), fm(c.X), FList(c.B),
+			outcome(r.Kind, "("+fm(r.A)+", "+fm(r.X)+", "+FList(r.B)+")")))
+		if r.Kind == "ok" && finiteM(r.X) && finiteM([][]float64{r.B}) {
+			na, kx, mx := normInf(in.A, c.Msk), normInf(r.X, c.Msk), 0.0
+			for i, v := range r.B {
+				if c.Msk[i] && math.Abs(v) > mx {
+					mx = math.Abs(v)
+				}
+			}
+			if na*kx <= condLimit/100 {
+				out = append(out, fmt.Sprintf("KResV %d %s %s %s %s %s", n, bl(c.Msk), fm(in.A), FList(r.B), FList(in.B), Q(tolOf(n, na, math.Max(mx, 1)*math.Max(kx, 1)))))
+				w.Count("residual:solve")
+			}
+		}
+	case "Inv":
+		out = append(out, fmt.Sprintf("KTInv %d %d %d %s %s %s %s", et, c.Mode, n, B(c.MskNil), bl(c.Msk), fm(c.A), outcome(r.Kind, fm(r.X))))
+		if r.Kind == "ok" && finiteM(r.X) {
+			na, nx := normInf(in.A, c.Msk), normInf(r.X, c.Msk)
+			if na*nx <= condLimit/100 {
+				out = append(out, fmt.Sprintf("KRes %d %s %s %s %s", n, bl(c.Msk), fm(in.A), fm(r.X), Q(tolOf(n, na, nx))))
+				w.Count("residual:inverse")
+			}
+		}
+	case "BS":
+		if r.Kind != "ok" {
+			r.B = []float64{}
+		}
+		out = append(out, fmt.Sprintf("KTBS %d %d %s %s %s %s", et, n, fm(c.A), B(c.HasB), FList(c.B), FList(r.B)))
+		if r.Kind == "ok" && c.HasB && finiteM([][]float64{r.B}) {
+			na, mx := normInf(in.A, allTrue(n)), 1.0
+			for _, v := range r.B {
+				mx = math.Max(mx, math.Abs(v))
+			}
+			if na*mx <= condLimit/100 {
+				out = append(out, fmt.Sprintf("KResV %d %s %s %s %s %s", n, bl(allTrue(n)), fm(in.A), FList(r.B), FList(in.B), Q(tolOf(n, na, mx))))
+				w.Count("residual:backsub")
+			}
+		}
+	case "Det":
+		if r.Kind != "ok" {
+			r.V = math.NaN()
+		}
+		out = append(out, fmt.Sprintf("KTDet %d %d %s %s", et, n, fm(c.A), F(r.V)))
+	case "DetPD":
+		out = append(out, fmt.Sprintf("KTDetPD %d %s %d %s %s %s", et, B(c.Log), n, fm(c.A), logTable(c), outcome(r.Kind, F(r.V))))
 	}
 	return out
 }
@@ -731,6 +782,19 @@ func permStream(tier string) []Case {
 }
 
 func nontrivial(c Case, r Result) bool {
+	if c.ET != "" {
+		// a typed case is non-trivial iff it has a history containing a call of ANOTHER element type
+		// (or a shared InSitu struct) and the routine returned a result
+		if r.Kind != "ok" || len(c.Pre) == 0 {
+			return false
+		}
+		for _, p := range c.Pre {
+			if p.et() != c.et() || c.Reuse {
+				return true
+			}
+		}
+		return false
+	}
 	if c.N < 3 || r.Kind != "ok" {
 		return false
 	}
@@ -769,6 +833,19 @@ func addCase(w *CaseWriter, c Case) {
 	w.Count("outcome:" + strings.SplitN(r.Kind, ":", 2)[0])
 	w.Count("input:" + c.Tag)
 	w.Count(fmt.Sprintf("n:%d", c.N))
+	w.Count("elementtype:" + c.et())
+	if c.ET != "" {
+		w.Count(fmt.Sprintf("history-length:%d", len(c.Pre)))
+		if c.Reuse {
+			w.Count("history:shared-insitu")
+		}
+		for _, p := range c.Pre {
+			if p.Kind == c.Kind && p.N == c.N && p.et() != c.et() && is32(p.et()) && !is32(c.et()) {
+				w.Count("history:same-routine-same-size-lower-precision-first")
+				break
+			}
+		}
+	}
 	if c.Kind == "GJ" || c.Kind == "Inv" {
 		w.Count(fmt.Sprintf("path:dense=%v", c.Dense))
 		if !prefixAll(c.Msk) {
@@ -820,6 +897,10 @@ func main() {
 		hunt(o)
 		return
 	}
+	if o.Extra == "prop1" {
+		prop1(o)
+		return
+	}
 	if o.Replay != "" {
 		b, err := os.ReadFile(o.Replay)
 		if err != nil {
@@ -842,7 +923,7 @@ func main() {
 	}
 	w := NewCaseWriter(o.Out, "cases", header, "mism", 24)
 	w.Type = "kase"
-	w.Rule = "gaussJordan.Run / matrixInverse.Run (plain, UpperTriangular, PositiveDefinite; Submatrix masks; caller-supplied dirty InSitu buffers) / backSubstitution.Run / determinant.Run (naive, PositiveDefinite) / Permute* on DenseFloat64 and DenseReal64 containers, n = 1..8; inputs: integer-valued, entries -3..3, upper triangular, SPD, 50% zeros, dyadic, random floats, structurally singular (zero row/column, identical rows, dependent rows), EVERY row permutation of fixed matrices n <= 5; a replay case is non-trivial iff n >= 3, the routine returned a result and (for the pivoting routines) the first selected column needs a row interchange; residual cases (KRes/KResV) are counted separately"
+	w.Rule = "gaussJordan.Run / matrixInverse.Run (plain, UpperTriangular, PositiveDefinite; Submatrix masks; caller-supplied dirty InSitu buffers) / backSubstitution.Run / determinant.Run (naive, PositiveDefinite) / Permute* on DenseFloat64 and DenseReal64 containers, n = 1..8; plus HISTORIES (typed cases): sequences of 4-5 calls in one process over Float32/Float64/Real32/Real64 containers (Float32 -> Float64 -> Real64 -> Float32 ... with one routine and one size; mixed routines; one InSitu struct shared by all calls), random entries not representable in binary32, every call compared with the model as if it were the first; a typed case is non-trivial iff its history contains a call of another element type or shares the InSitu struct; inputs: integer-valued, entries -3..3, upper triangular, SPD, 50% zeros, dyadic, random floats, structurally singular (zero row/column, identical rows, dependent rows), EVERY row permutation of fixed matrices n <= 5; a replay case is non-trivial iff n >= 3, the routine returned a result and (for the pivoting routines) the first selected column needs a row interchange; residual cases (KRes/KResV) are counted separately"
 	for _, c := range readCorpus(o.Extra) {
 		c.Tag = "corpus:" + c.Tag
 		addCase(w, c)
@@ -853,6 +934,32 @@ func main() {
 	rng := NewRng(o.Seed)
 	for k := 0; k < o.N; k++ {
 		addCase(w, genCase(rng.Split()))
+	}
+	// single typed calls, mostly the 32 bit element types (bit-exact binary32 model), sizes 1..6,
+	// incl. structurally singular and integer-valued input on the generic path
+	trng := NewRng(o.Seed + 31337)
+	for k := 0; k < o.N/4; k++ {
+		rr := trng.Split()
+		et := []string{"f32", "r32", "f32", "r32", "f32", "r64", "f64"}[rr.Intn(7)]
+		c := typedCall(rr, routines[k%len(routines)], et, rr.Range(1, 6), false)
+		c.Tag = "typed-single"
+		if (c.Kind == "Inv" && c.Mode == 0) || c.Kind == "GJ" {
+			switch rr.Intn(6) {
+			case 0:
+				c.A, _ = singularMat(rr, c.N)
+				c.Tag = "typed-single:singular"
+			case 1:
+				c.A = intMat(rr, c.N, 9, 0)
+				c.Tag = "typed-single:int"
+			}
+		}
+		addCase(w, c)
+	}
+	// histories: sequences of calls of different element types / routines in this one process
+	for _, seq := range seqStream(NewRng(o.Seed+7919), o.N/6) {
+		for _, c := range seq {
+			addCase(w, c)
+		}
 	}
 	if err := w.Flush(); err != nil {
 		Die("%v", err)
